@@ -2,6 +2,7 @@
   Drivers/C05.lean — runs Model/C05 on exact rationals.
   requests: {"op":"rot","q":[w,x,y,z]} | {"op":"compose","poses":[[w,x,y,z,tx,ty,tz],...]}
             {"op":"inverse","pose":[..7..]} | {"op":"transform","pose":[..7..],"points":[[x,y,z(,r,g,b)],...]}
+            {"op":"hist","pool":[poses],"steps":[...]}  a history over pose OBJECTS (inverse / rescale in place / compose)
 -/
 import Kapture.Base.DriverCore
 import Kapture.Model.C05
@@ -58,6 +59,20 @@ def handle (j : Json) : Json :=
       if Gen.RotMat.qnorm p.r = 0 then err "zero-norm" else
       Json.mkObj [("points", Json.arr ((transformPoints p rows).map v3Json).toArray)]
     | _, _ => err "bad-transform"
+  | some "hist" =>
+    -- {"op":"hist","pool":[pose...],"steps":[["inverse",i] | ["rescale",i,s] | ["compose",[i...]]]} -> {"pool":[pose...]}
+    match (field? j "pool").bind getArr? |>.bind (mapM? parsePose) with
+    | some pool =>
+      let steps : List (HistOp Rat) := (((field? j "steps").bind getArr?).getD #[]).toList.filterMap (fun st =>
+        let a := ((getArr? st).getD #[]).toList
+        match a with
+        | [Json.str "inverse", i] => (getNat? i).map HistOp.inverse
+        | [Json.str "rescale", i, sc] => do some (HistOp.rescale (← getNat? i) (← getRat? sc))
+        | [Json.str "compose", is] => some (HistOp.compose (((getArr? is).getD #[]).toList.filterMap getNat?))
+        | _ => none)
+      if pool.any (fun p => Gen.RotMat.qnorm p.r = 0) then err "zero-norm" else
+      Json.mkObj [("pool", Json.arr ((runHist pool steps).map poseJson).toArray)]
+    | none => err "bad-pool"
   | _ => err "bad-op"
 
 def main : IO Unit := run handle
